@@ -8,6 +8,7 @@
 
 mod alphabet;
 mod builder;
+mod cddl;
 mod engine;
 mod fx;
 mod gen;
